@@ -283,12 +283,23 @@ template<typename R, typename... Args> struct Sys {
         return 0;
     }
 
-    static void node_key(const SubjectRouter::Node &n, std::string &out) {
+    template<typename N> static void node_key(const N &n, std::string &out) {
         out += n.m_name; out += n.m_subject ? 'S' : '-';
         if (n.m_subject) { int c = 0; for (auto &d : n.m_subject->m_observers) { (void)d; c++; } out += std::to_string(c); }
         out += '(';
         for (auto &kv : n.m_children) node_key(kv.second, out);
         out += ')';
+    }
+
+    // The routing tree is read from the implementation's own fields.  Should a refactoring rename them, the harness still builds and describes the tree through the public
+    // API instead: which storable keys exist, and for each whether it holds a subject and how many observers answer a notification of exactly that key.
+    template<typename RR> static constexpr bool known_layout_v = requires(const RR &r) { plain(r).m_rootNode.m_name; plain(r).m_rootNode.m_children.begin(); (bool)plain(r).m_rootNode.m_subject; };
+    void tree_key(std::string &k) {
+        if constexpr (known_layout_v<R>) node_key(plain(*router).m_rootNode, k);
+        else for (size_t i = 0; i < U->all_keys.size(); i++) {
+            if (!router->exists(K.all_rk((int)i))) { k += '.'; continue; }
+            g_calls.clear(); size_t ret = S::notify(*router, K.all_rk((int)i)); k += fmt("%zu/%zu,", ret, g_calls.size()); g_calls.clear();
+        }
     }
 
     std::string step(const std::vector<Op> &h, const Op *o, bool &okp, bool full) {
@@ -301,7 +312,7 @@ template<typename R, typename... Args> struct Sys {
             if (o) apply(*o, true);
             // cheap public observations are part of the canonical key: a router that answers differently although its tree looks the same (a cached value gone stale, say) is a different state and gets examined
             k = fmt("d%zu:", router->depth());
-            node_key(plain(*router).m_rootNode, k);
+            tree_key(k);
             k += "|"; for (auto &s : subs) if (s.live) k += fmt("%d@%d,", s.obs, s.key);      // which of the history's observers are live (ids matter to the oracle only)
 
             if (full) examine();
